@@ -12,7 +12,9 @@ from vlib.sut import load
 
 PROPERTY = 'C05'
 RULE = ('Single-update cases on a real broker with a stub data handler whose quote differs at every instant '
-        '(submit time, update time, any other time) and per asset: 1-2 orders (qty +-{1..10} or log-U(1,1e6)), '
+        '(submit time, update time, any other time) and per asset: 1-3 orders (incl. a sell and a buy of the same asset '
+        'in one update, in one or two portfolios; orders carrying their own commission attribute; one fee-model '
+        'object shared by two brokers) (qty +-{1..10} or log-U(1,1e6)), '
         'bid/ask with |ask-bid| >= 0.1% in either order, fee zero/default/percentage with commission and tax '
         'in [0,1], update instants inside exchange hours on any weekday; each case is also run mirrored (sell '
         'for buy at the same price). Oracle: fill time == update time == history event time; price == ask at '
